@@ -379,3 +379,18 @@ Proof.
   - f_equal. lia.
   - rewrite IHHP1. auto.
 Qed.
+
+(* a selection is one of the registered candidates, with the map and rank its own match produced *)
+Lemma resolve_sel_in cs q s :
+  resolve cs q = OSel s -> In (s_cand s) cs /\ try_match (s_cand s) q = TMOk (s_map s) (s_rank s).
+Proof.
+  intros H. apply selects_unique_min_rank_lemma in H. destruct H as [l [l1 [l2 [Hc [-> _]]]]].
+  apply (collect_in _ _ _ Hc s). apply in_or_app. right. left. auto.
+Qed.
+
+Lemma resolve_amb_in cs q tied s :
+  resolve cs q = OAmb tied -> In s tied -> In (s_cand s) cs /\ try_match (s_cand s) q = TMOk (s_map s) (s_rank s).
+Proof.
+  intros H Hs. apply ambiguous_iff_best_shared_lemma in H. destruct H as [l [r [Hc [_ [-> _]]]]].
+  apply filter_In in Hs. destruct Hs as [Hs _]. apply (collect_in _ _ _ Hc s). auto.
+Qed.
